@@ -18,9 +18,9 @@ from props.c01 import kind, diffclass
 PROP = "C02"
 LAMS = {"sub": "{x-y}", "nas": "{(2*x)-y}", "rgt": "{x;y}", "pair": "{x,y}", "dbl": "{x*2}", "neg": "{0-x}", "cnt": "{#x}",
         "half": "{x:%2}", "ix0": "{x@0}", "ix1": "{x@1}", "ixm": "{(x@0)*(x@1)}", "dec": "dec", "pyd": "pyd", "pym": "pym",
-        "lt20": "{x<20}"}
+        "lt20": "{x<20}", "pos": "{x>0}", "sq1": "{(x*x)+1}"}
 ADV = {"each": "'", "eachpair": ":'", "over": "/", "scan": "\\", "converge": ":~", "scanconverge": "\\~", "eachindex": "@'",
-       "eachleft": ":\\", "eachright": ":/", "iterate": ":*", "scaniterate": "\\*"}
+       "eachleft": ":\\", "eachright": ":/", "iterate": ":*", "scaniterate": "\\*", "while": ":~", "scanwhile": "\\~"}
 
 
 def vtext(f):
@@ -47,6 +47,8 @@ def new_interp():
 
 
 def source(c):
+    if c["form"] in ("while", "scanwhile"):
+        return f"{vtext(c['p'])}{vtext(c['f'])}{ADV[c['form']]}({canon.render(c['a'])})"
     f = vtext(c["f"]) + ADV[c["form"]]
     a = canon.render(c["a"])
     if c["ar"] == 1:
@@ -156,6 +158,8 @@ def run(tier, seed):
         if src in bad_src:
             continue
         f = vtext(c["f"]) + ADV[c["form"]]
+        if c["form"] in ("while", "scanwhile"):
+            f = vtext(c["p"]) + f
         na = ops[json.dumps(c["a"], sort_keys=True)][0]
         vsrc = f"{f}({na})" if c["ar"] == 1 else f"({na}){f}({ops[json.dumps(c['b'], sort_keys=True)][0]})"
         got, exc = ev1(vsrc)
@@ -163,6 +167,8 @@ def run(tier, seed):
         if not canon.same(c["exp"], got):
             report(c, src, "with its operands held by variables of a long-lived interpreter", got, exc, "via-variable")
             continue
+        if c["form"] in ("while", "scanwhile"):
+            continue      # two lambdas in front of the operand: the parameters of the inner lambdas make the wrapper a monad
         K(f"g::{{{src}}}")
         ev1("g()")
         got, exc = ev1("g()")
@@ -193,7 +199,7 @@ def run(tier, seed):
     for c in cases[:1] + cases[len(cases) // 2:len(cases) // 2 + 1]:
         ev.sample({"source": source(c), "expansion_value": canon.show(c["exp"])})
     ev.cov["checker_cmd"] = "tlc KgAdvCases.tla ; replay into KlongInterpreter"
-    ev.assumptions += ["While / Scan-While (two verbs) and dictionary operands of Each are not enumerated yet",
+    ev.assumptions += ["dictionary operands of Each are C10's subject",
                        "verbs inherit the conservative domains of KgVerbs.tla"]
     return vd.finish()
 
